@@ -268,21 +268,24 @@ func lookupMethodByName(i *interpreter, t types.Type, name string) *ssaFunction 
 func registerSyncIntrinsics(reg func(string, externalFn)) {
 	// atomic primitives: plain loads/stores (the VM runs one thread at a time)
 	ld := func(fr *frame, a []value) value {
-		if fr.i.m.sc.preempt {
+		if fr.i.m.sc.preempt >= 2 {
 			fr.i.m.yield()
 		}
 		return *a[0].(*value)
 	}
 	st := func(fr *frame, a []value) value {
-		if fr.i.m.sc.preempt {
+		if fr.i.m.sc.preempt >= 2 {
 			fr.i.m.yield()
 		}
+		fr.i.m.observe(fr, "before-atomic-store")
 		*a[0].(*value) = a[1]
+		fr.i.m.observe(fr, "after-atomic-store")
 		return nil
 	}
 	swap := func(fr *frame, a []value) value {
 		old := *a[0].(*value)
 		*a[0].(*value) = a[1]
+		fr.i.m.observe(fr, "after-atomic-swap")
 		return old
 	}
 	for _, T := range []string{"Int32", "Int64", "Uint32", "Uint64", "Uintptr", "Pointer"} {
@@ -350,8 +353,17 @@ func registerSyncIntrinsics(reg func(string, externalFn)) {
 	})
 
 	// mutexes
-	reg("(*sync.Mutex).Lock", func(fr *frame, a []value) value { fr.i.m.lock(a[0].(*value)); return nil })
-	reg("(*sync.Mutex).Unlock", func(fr *frame, a []value) value { fr.i.m.unlock(a[0].(*value)); return nil })
+	reg("(*sync.Mutex).Lock", func(fr *frame, a []value) value {
+		fr.i.m.lock(a[0].(*value))
+		fr.i.m.observe(fr, "after-lock")
+		return nil
+	})
+	reg("(*sync.Mutex).Unlock", func(fr *frame, a []value) value {
+		fr.i.m.observe(fr, "before-unlock")
+		fr.i.m.unlock(a[0].(*value))
+		fr.i.m.observe(fr, "after-unlock")
+		return nil
+	})
 	reg("(*sync.Mutex).TryLock", func(fr *frame, a []value) value { return fr.i.m.tryLock(a[0].(*value)) })
 	reg("(*sync.RWMutex).Lock", intrinsics["(*sync.Mutex).Lock"])
 	reg("(*sync.RWMutex).Unlock", intrinsics["(*sync.Mutex).Unlock"])
@@ -607,6 +619,7 @@ func registerVndIntrinsics(reg func(string, externalFn)) {
 		}
 		return int(asInt64(a[1]))
 	})
+	reg(vndPkg+"InVM", func(fr *frame, a []value) value { return true })
 	reg(vndPkg+"Symbolic", func(fr *frame, a []value) value { return !fr.i.m.concrete })
 	reg(vndPkg+"Observe", func(fr *frame, a []value) value {
 		m := fr.i.m
@@ -681,6 +694,19 @@ func registerVndIntrinsics(reg func(string, externalFn)) {
 		call(fr.i, fr, 0, a[0], nil)
 		return false
 	})
+	reg(vndPkg+"SetSyncObserver", func(fr *frame, a []value) value {
+		m := fr.i.m
+		switch f := a[0].(type) {
+		case *ssaFunction:
+			if f == nil {
+				m.observer = nil
+				return nil
+			}
+		}
+		m.observer = a[0]
+		return nil
+	})
+	reg(vndPkg+"ObserverCalls", func(fr *frame, a []value) value { return fr.i.m.observerCalls })
 	reg(vndPkg+"Go", func(fr *frame, a []value) value {
 		i := fr.i
 		f := a[0]
@@ -754,4 +780,16 @@ func hasPointers(t types.Type) bool {
 		return hasPointers(u.Elem())
 	}
 	return true
+}
+
+// observe calls the harness' sync observer (if set) at a synchronisation
+// operation of the main thread: "another goroutine takes a snapshot here".
+func (m *machine) observe(fr *frame, point string) {
+	if m.observer == nil || m.inObserver || m.sc.cur.id != 0 {
+		return
+	}
+	m.inObserver = true
+	m.observerCalls++
+	defer func() { m.inObserver = false }()
+	call(fr.i, fr, 0, m.observer, []value{point})
 }
